@@ -10,13 +10,15 @@ Sets outside the model's domain (float times, MicroDVD times outside [0, 2^50), 
 style classes) are counted and skipped.
 """
 import pycaption
-from pycaption import (MicroDVDReader, WebVTTReader, SRTReader, MicroDVDWriter, WebVTTWriter, SRTWriter,
-                       CaptionSet, CaptionList, Caption, CaptionNode)
+import re
+from pycaption import (MicroDVDReader, WebVTTReader, SRTReader, SCCReader, MicroDVDWriter, WebVTTWriter, SRTWriter,
+                       SCCWriter, CaptionSet, CaptionList, Caption, CaptionNode)
 import impl
 from wire import Ok, oracle_batch, r_result, r_opt
 
 FMT = {"MicroDVD": (1, MicroDVDWriter, MicroDVDReader, 1), "WebVTT": (2, WebVTTWriter, WebVTTReader, 2),
-       "SRT": (4, SRTWriter, SRTReader, 4)}
+       "SRT": (4, SRTWriter, SRTReader, 4), "SCC": (5, SCCWriter, SCCReader, 5)}
+TIMECODE = re.compile(r"\d\d:\d\d:\d\d[:;]\d\d")
 
 # pieces that build other formats' markers inside one node, across nodes, and everything the writers treat specially
 POOL = ["</t", "t>", "</tt>", "</TT>", "</T", "T>", "<", "/", "&", "-", "--", ">", "-->", "->", "WEBVTT", "WEB", "VTT",
@@ -97,6 +99,8 @@ def encode(cs, name):
                         return None, "non_str_text"
                     if name == "WebVTT" and li == 0 and n.layout_info:
                         return None, "layout"
+                    if name == "SCC" and li == 0 and "\t" in n.content:
+                        return None, "tab(str.expandtabs is outside model/SccWrap.v)"
                     nodes.append([0, n.content])
                 elif n.type_ == CaptionNode.BREAK:
                     nodes.append([1])
@@ -117,8 +121,8 @@ def run_nodes(ctx, res, extra_cases):
     dist = res["distribution"]
     rng = ctx.rng
     cases = [(n, cs) for n, cs in extra_cases if n in FMT]
-    for i in range(ctx.n(600, 30000)):
-        name = ("SRT", "MicroDVD", "WebVTT")[i % 3]
+    for i in range(ctx.n(490, 30000)):
+        name = ("SRT", "MicroDVD", "WebVTT", "SRT", "MicroDVD", "WebVTT", "SCC")[i % 7]
         cases.append((name, adv_set(rng, name)))
     reqs, items = [], []
     for name, cs in cases:
@@ -127,17 +131,25 @@ def run_nodes(ctx, res, extra_cases):
             bump(dist, "G_outside_model_domain_%s_%s" % (name, why))
             continue
         out = impl.call(lambda: FMT[name][1]().write(cs))
-        if not isinstance(out, Ok):
+        if not isinstance(out, Ok) and name != "SCC":
             bump(dist, "G_writer_raised_" + name)
             continue
         reqs.append((2003, [FMT[name][0], w]))
-        items.append((name, cs, out.v))
+        items.append((name, cs, out.v if isinstance(out, Ok) else None))
     for (name, cs, doc), r in zip(items, oracle_batch(reqs)):
         res["evaluations"] += 1
         bump(dist, "G_writer_model_cases_" + name)
         if r == [-1]:
-            res["disagreements"].append({"input": repr(doc[:300]), "stream": "G", "what": "request 2003 rejected the encoding"})
+            res["disagreements"].append({"input": describe(cs), "stream": "G", "what": "request 2003 rejected the encoding"})
             continue
+        if r == [-2] or doc is None:         # SCC: the writer (model) raises beyond 32 rows
+            bump(dist, "G_scc_writer_and_model_both_raise" if (r == [-2] and doc is None) else "G_scc_raise_differs(info)")
+            continue
+        if name == "SCC" and r[0] != doc and TIMECODE.sub("T", r[0]) == TIMECODE.sub("T", doc):
+            # the model's pre-roll uses the exact 1001000/30 us per code word, the code its binary64 value: a timecode
+            # may differ by one frame at a frame boundary (C17 owns that tolerance); nothing else may differ
+            bump(dist, "G_scc_timecode_differs_by_float_rounding(info)")
+            r = [doc, r[1], r[2]]
         mdoc, dom, mdet = r[0], r[1] == 1, r_result(r[2], lambda o: r_opt(o))
         if mdoc != doc:
             res["disagreements"].append({"input": describe(cs), "stream": "G", "fmt": name,
@@ -179,3 +191,93 @@ def describe(cs):
                      for c in cs.get_captions(lang)]
     s = repr(out)
     return s if len(s) < 3000 else s[:3000] + "..."
+
+
+# ------------------------------------------------------------------------------------------------ stream H
+def read_set(rng, name):
+    """sets aimed at the read-back domain: visible texts, one language for SRT, MicroDVD cues outside frame 0; a share of
+    them carries what the domain excludes (frame-0 cues, '|'-only texts, CR, several languages)"""
+    pool = ["hello", "x y", "a|b", "|", " ", "1", "25", "{1}{2}", "-->", "é", "中", "\n", "a\nb", "WEBVTT", "Scenarist_SCC V1.0",
+            "<sami", "&", "tt>", "</t"]
+    bad = rng.random() < 0.25
+    nlangs = 1 if (name == "SRT" and not bad) else rng.choice([1, 1, 2])
+    d = {}
+    t = rng.choice([40000, 80000, rng.randrange(40000, 10 ** 7)])
+    if bad and name == "MicroDVD" and rng.random() < 0.5:
+        t = 0
+    for li in range(nlangs):
+        caps = []
+        for _ in range(rng.randint(1, 4)):
+            dur = rng.choice([1, 1000, 30000, 40000, 10 ** 6, rng.randrange(1, 10 ** 7)])
+            nodes = []
+            for k in range(rng.randint(1, 3)):
+                if k:
+                    nodes.append(CaptionNode.create_break() if rng.random() < 0.7 else CaptionNode.create_style(True, {"italics": True}))
+                txt = "".join(rng.choice(pool) for _ in range(rng.randint(1, 3)))
+                if bad and rng.random() < 0.3:
+                    txt = rng.choice(["|", " | ", "a\rb", "\r", " "])
+                nodes.append(CaptionNode.create_text(txt))
+            caps.append(Caption(t, t + dur, nodes))
+            t = t + dur + rng.choice([0, 1000, rng.randrange(1, 10 ** 7)]) if rng.random() < 0.8 else t
+        d["l%d" % li] = CaptionList(caps)
+    return CaptionSet(d)
+
+
+def real_read(name, doc):
+    R = FMT[name][2]
+    r = impl.call(lambda: R().read(doc))
+    if not isinstance(r, Ok):
+        return r
+    cs = r.v
+    langs = cs.get_languages()
+    return Ok([(c.start, c.end) for c in cs.get_captions(langs[0])] if langs else [])
+
+
+def run_read(ctx, res, extra_cases):
+    """'that reader reads the document' on the read-back domain of C20_own_read_mdvd (and the SRT domain, executed)"""
+    dist = res["distribution"]
+    rng = ctx.rng
+    cases = [(n, cs) for n, cs in extra_cases if n in ("SRT", "MicroDVD")]
+    for i in range(ctx.n(300, 12000)):
+        name = ("MicroDVD", "SRT")[i % 2]
+        cases.append((name, read_set(rng, name)))
+    reqs, items = [], []
+    for name, cs in cases:
+        w, why = encode(cs, name)
+        if w is None:
+            bump(dist, "H_outside_model_domain_%s_%s" % (name, why))
+            continue
+        out = impl.call(lambda: FMT[name][1]().write(cs))
+        if not isinstance(out, Ok):
+            continue
+        reqs.append((2004, [FMT[name][0], w]))
+        items.append((name, cs, out.v))
+    for (name, cs, doc), r in zip(items, oracle_batch(reqs)):
+        res["evaluations"] += 1
+        if r == [-1]:
+            res["disagreements"].append({"input": describe(cs), "stream": "H", "what": "request 2004 rejected the encoding"})
+            continue
+        dom = r[0] == 1
+        expected = [(c[0], c[1]) for c in r[1]]
+        model = r_result(r[2], lambda l: [(c[0], c[1]) for c in l])
+        rd = real_read(name, doc)
+        if not dom:
+            bump(dist, "H_outside_read_back_domain_" + name)
+            if not (isinstance(rd, Ok) and rd.v == expected):
+                bump(dist, "H_outside_read_back_domain_and_not_read_back_" + name)
+            continue
+        bump(dist, "H_in_read_back_domain_" + name)
+        res["nontrivial"].add(("H", name, hash(doc)))
+        if not (isinstance(model, Ok) and model.v == expected):
+            if name == "MicroDVD":      # contradicts C20_own_read_mdvd
+                res["disagreements"].append({"input": describe(cs), "stream": "H", "fmt": name,
+                                             "what": "reader model does not return the expected captions inside the theorem's domain"})
+            else:
+                bump(dist, "H_srt_reader_model_differs_from_expected(info)")
+        if not (isinstance(rd, Ok) and rd.v == expected):
+            res["violations"].append({
+                "kind": "own-output-not-read-back:read-domain", "fmt": name, "shape": "read-domain",
+                "what": "%s: the reader does not return one caption per written cue with the written instants "
+                        "(expected %d captions, got %s)" % (name, len(expected), (len(rd.v) if isinstance(rd, Ok) else repr(rd))),
+                "input": describe(cs), "document": doc[:4000], "expected": [list(e) for e in expected],
+                "replay": "own-read", "stream": "H"})
